@@ -489,8 +489,12 @@ class ConsumerGroup(Entity):
             if consumer_name not in self._committed_offsets:
                 self._committed_offsets[consumer_name] = {}
 
+            committed = self._committed_offsets[consumer_name]
             for pid, offset in offsets.items():
-                self._committed_offsets[consumer_name][pid] = offset
+                # Committed offsets never move backwards: a stale or duplicated
+                # commit (e.g. one that was overtaken by a later commit) is ignored.
+                if offset > committed.get(pid, -1):
+                    committed[pid] = offset
 
             self._commits += 1
             return None
